@@ -1,7 +1,7 @@
 SPECIFICATION Spec
 CONSTANTS
   FixWriteRune = TRUE
-  Alphabet = {65, 130, 169, 195, 226}
+  Alphabet = {65, 169, 195, 226}
   PayMax = 2
   ExtraPayloads = {}
   Sizes <- MCSizesBig
